@@ -40,6 +40,7 @@ SOURCES = {
     "group opacity between layers": f'<svg {NS} viewBox="0 0 64 64"><defs/><path d="M1,1 L30,1 L30,30 Z" fill="#010203"/>'
     '<g opacity="0.5"><path d="M5,5 L40,5 L40,40 Z" fill="#FF0000"/><path d="M10,10 L50,10 L50,50 Z" fill="#00FF00" opacity="0.25"/></g>'
     '<path d="M2,2 L60,2 L60,60 Z" fill="#0000FF"/></svg>',
+    "fill with its own alpha channel + shape opacity": f'<svg {NS} viewBox="0 0 32 32"><defs/><path d="M1,1 L30,1 L30,30 Z" fill="#FF000080" opacity="0.5"/><path d="M2,2 L20,2 L20,20 Z" fill="#0F08"/></svg>',
     "currentColor and palette variables": f'<svg {NS} viewBox="0 0 32 32"><defs/><path d="M1,1 L30,1 L30,30 Z" fill="currentColor" opacity="0.5"/><path d="M2,2 L20,2 L20,20 Z" fill="var(--color2, #ABCDEF)"/></svg>',
 }
 
@@ -80,6 +81,17 @@ def source_leaves(svg_text):
     for ch in root:
         walk(ch, ())
     return vb, leaves
+
+
+def solid_alpha(fill: str, opacity: float) -> float:
+    """alpha of a solid fill = the colour's own alpha channel (#RRGGBBAA / #RGBA) x shape opacity."""
+    own = 1.0
+    f = fill.strip()
+    if f.startswith("#") and len(f) == 9:
+        own = int(f[7:9], 16) / 255
+    elif f.startswith("#") and len(f) == 5:
+        own = int(f[4] * 2, 16) / 255
+    return own * opacity
 
 
 def paint_leaves(layers):
@@ -133,9 +145,9 @@ def replay_source(inp):
         if f[0] != w["fill"][0]:
             return {"fill kind": [f[0], w["fill"][0]]}
         if f[0] == "solid":
-            c = Color.fromstring(w["fill"][1], alpha=w["opacity"])
-            if f[1] != c:
-                return {"solid": [repr(f[1]), repr(c)]}
+            c = Color.fromstring(w["fill"][1])
+            if f[1].opaque() != c.opaque() or abs(f[1].alpha - solid_alpha(w["fill"][1], w["opacity"])) > 1e-12:
+                return {"solid": [repr(f[1]), w["fill"][1], "shape opacity", w["opacity"], "expected alpha", solid_alpha(w["fill"][1], w["opacity"])]}
             continue
         for st, (off, col, sop) in zip(f[-2], w["stops"]):
             if abs(st.stopOffset - off) > 1e-9 or abs(st.color.alpha - Color.fromstring(col).alpha * sop * w["opacity"]) > 1e-9 or st.color.opaque() != Color.fromstring(col).opaque():
@@ -236,7 +248,7 @@ def job_source(jc):
                     structural = False
                     continue
                 if f[0] == "solid":
-                    structural = structural and f[1] == Color.fromstring(w["fill"][1], alpha=w["opacity"])
+                    structural = structural and f[1].opaque() == Color.fromstring(w["fill"][1]).opaque() and abs(f[1].alpha - solid_alpha(w["fill"][1], w["opacity"])) < 1e-12
                     continue
                 structural = structural and len(f[-2]) == len(w["stops"]) and f[-1].name == w["spread"]
                 for st, (off, col, sop) in zip(f[-2], w["stops"]):
